@@ -34,6 +34,8 @@ class Amorph(Indicator):
     def settings(self) -> dict:
         """Returns a dict format of how this indicator can be generated"""
         output = {"analysis": self._analysis_method.__name__}
+        if self._analysis_kwargs:
+            output["args"] = deepcopy(self._analysis_kwargs)
 
         for name, value in self.__dict__.items():
             if name == "candles":
